@@ -420,6 +420,7 @@ impl Run {
             return None;
         }
         run.proxy = Some(run.w.addr("proxy"));
+        run.w.names.insert("NOT-AN-ADDRESS".into(), "bad".into());
         // a deployment made by an older release: its version stamp and, optionally, an admin recorded in a
         // spelling today's address validation would refuse (the stored list is what counts, C17)
         let ver = cfg.get("ver").and_then(|x| x.as_str()).unwrap_or("cur");
@@ -645,7 +646,8 @@ fn rand_send(rng: &mut Rng, left: &mut [i64; 2], top: i64) -> Value {
         left[di] = (left[di] - a as i64).max(0);
         coins.push(json!({"d": DENOMS[di], "a": a}));
     }
-    let to = *rng.pick(&["a1", "a4", "r1", "k1"]);
+    // (the recipient is the bank module's business, not the proxy's: also a string the chain would not accept)
+    let to = *rng.pick(&["a1", "a4", "r1", "k1", "r1", "bad"]);
     json!({"k":"send","to":to,"coins":coins,"tag":""})
 }
 
@@ -801,7 +803,27 @@ fn drive(run: &mut Run, rng: &mut Rng, len: usize, out: &mut Out) {
                     _ => 3,
                 };
                 let bias = if rng.chance(2, 3) { 75 } else { 30 };
-                let msgs: Vec<Value> = (0..nm).map(|_| rand_msg(rng, &mut left, top, bias)).collect();
+                let mut msgs: Vec<Value> = (0..nm).map(|_| rand_msg(rng, &mut left, top, bias)).collect();
+                if rng.chance(1, 6) {
+                    // a holder of some permission flags sends the message kinds it may relay first and one it may not
+                    // relay after them (every message of the list is authorised on its own)
+                    let flags = &obs["perm"][&by];
+                    let kinds = [("delegate", "d"), ("undelegate", "u"), ("redelegate", "r"), ("withdraw", "w")];
+                    let yes: Vec<&str> = kinds.iter().filter(|(_, f)| flags[*f].as_bool().unwrap_or(false)).map(|(k, _)| *k).collect();
+                    let no: Vec<&str> = kinds.iter().filter(|(_, f)| !flags[*f].as_bool().unwrap_or(false)).map(|(k, _)| *k).collect();
+                    if !yes.is_empty() && !no.is_empty() {
+                        let mk = |k: &str, rng: &mut Rng| -> Value {
+                            match k {
+                                "redelegate" => json!({"k":"redelegate","to":"v1","coins":[{"d":"d1","a":rng.range(1,3)}],"tag":"v2"}),
+                                "withdraw" => json!({"k":"withdraw","to":"v1","coins":[],"tag":""}),
+                                _ => json!({"k":k,"to":"v1","coins":[{"d":"d1","a":rng.range(1,3)}],"tag":""}),
+                            }
+                        };
+                        let a = *rng.pick(&yes);
+                        let b = *rng.pick(&no);
+                        msgs = vec![mk(a, rng), mk(b, rng)];
+                    }
+                }
                 json!({"act":"execute","by":by,"args":{"msgs":msgs}})
             }
             38..=45 => rand_probe(rng, &obs, &run.memo, top),
